@@ -32,7 +32,7 @@ TraceClauses(p, T, ev) ==
   \cup F("ret",     LawVisited(p, T) /\ ~LawRet(p, T))
   \cup F("selfassess.run",   ev.assess.status \notin {"ok", "none"})
   \cup F("selfassess.score", ev.assess.status = "ok" /\ ~Close(ev.assess.score, T.score))
-  \cup F("selfassess.ret",   ev.assess.status = "ok" /\ ev.assess.ret # T.ret)
+  \cup F("selfassess.ret",   ev.assess.status = "ok" /\ NormV(ev.assess.ret) # NormV(T.ret))
 
 UndoClauses(pre, ev) ==
   IF IsRejected(ev.undo.status) \/ ev.undo.status = "none" THEN F("undo.run", ev.undo.status # "none")
@@ -67,7 +67,7 @@ AssessClauses(p, ev) ==
       r == Exec(p, ev.reqargs, c, FALSE)
   IN  IF r.err = "reuse" THEN {}
       ELSE IF ev.status = "ok" THEN
-             F("assess.value", r.err = "none" /\ ~(Close(ev.w, Score(r)) /\ (p.k = "maskediterate" \/ ev.subt.ret = r.ret)))
+             F("assess.value", r.err = "none" /\ ~(Close(ev.w, Score(r)) /\ (p.k = "maskediterate" \/ NormV(ev.subt.ret) = NormV(r.ret))))
              \cup F("missing", p.k = "static" /\ PureStatic(p) /\ r.err = "missing")
       ELSE IF ev.status = "raised:MissingAddress" THEN F("missing", r.err # "missing")
       ELSE F("assess.run", r.err = "none")
